@@ -31,6 +31,14 @@ def _geom(fam, nsites):
     if fam == "NP1":
         sites = [(0, i // 2, (2, 0)[i % 2] if (i // 2) % 2 == 0 else (3, 1)[i % 2]) for i in range(nsites)]
         kind = "3B2"
+    elif fam == "NP2.4-interleaved":
+        # four shanks, channel numbers running over the shanks in blocks of 3: channel index is not monotonic in depth inside a neighbourhood
+        sites = [((i // 3) % 4, (i // 12) * 2 + (i % 3) // 2 + (1 if i % 3 == 2 else 0), i % 2) for i in range(nsites)]
+        kind = "NP2.4"
+    elif fam == "NP1-permuted":
+        base = [(0, i // 2, (2, 0)[i % 2] if (i // 2) % 2 == 0 else (3, 1)[i % 2]) for i in range(nsites)]
+        sites = [base[(i * 7) % nsites] for i in range(nsites)] if nsites % 7 else [base[(i * 5) % nsites] for i in range(nsites)]
+        kind = "3B2"
     else:
         sites = [(0, i // 2, i % 2) for i in range(nsites)]
         kind = "NP2.1"
@@ -39,7 +47,7 @@ def _geom(fam, nsites):
 
 
 def array_cases(tier, seed):
-    return [(fam, radius, pc) for fam in ("NP1", "NP2") for radius in (20.0, 50.0, 200.0) for pc in range(24)]
+    return [(fam, radius, pc) for fam in ("NP1", "NP2", "NP2.4-interleaved", "NP1-permuted") for radius in (20.0, 50.0, 200.0) for pc in range(24)]
 
 
 def array_check(case):
@@ -460,6 +468,49 @@ def file_check(case):
     return Res(list(seen.items()), o=(fam, max_wf, mode), tr=ntr)
 
 
+def many_cases(tier, seed):
+    from mc import thresholds
+    ths = thresholds.beyond(thresholds.mine([wx], 100, 2000), extra=(257, 301), cap=1200)
+    return [(mw,) for mw in sorted(set(ths))[-4:]]
+
+
+def many_check(case):
+    """a unit with more waveforms than any size constant in the extractor's source (max_wf above it): table, traces, loader still agree row by row"""
+    max_wf = case[0]
+    ns = 60000
+    d = os.path.join(synth.proc_scratch(), "c13_many_%d" % max_wf)
+    os.makedirs(d, exist_ok=True)
+    fbin, cal, xy = _recording(d, "NP1", ns, nsites=16)
+    n_big = max_wf + 150
+    t_big = (TROUGH + 5 + np.arange(n_big) * ((ns - 300) // n_big)).astype(np.int64)
+    t_small = np.array([777, 5000, 5001, 30000, 59000], dtype=np.int64)
+    ss = np.r_[t_big, t_small]
+    sc = np.r_[np.full(n_big, 4), np.full(t_small.size, 9)]
+    sch = np.r_[(np.arange(n_big) * 5) % 16, np.array([1, 2, 3, 4, 15])]
+    o = np.argsort(ss, kind="stable")
+    spikes = (ss[o], sc[o], sch[o])
+    seen = {}
+    out = os.path.join(d, "out")
+    ctx = "unit of %d spikes, max_wf=%d" % (n_big, max_wf)
+    try:
+        _run_extract(fbin, out, spikes, max_wf, 10000, None, seed=1)
+        res = _verify_output(out, cal, xy, spikes, max_wf, ns, seen, ctx)
+        if res is not None:
+            _loader_check(out, seen, ctx)
+            tab = res[0]
+            for u in (4, 9):
+                iw = tab["index_within_clusters"].to_numpy()[tab["cluster"].to_numpy() == u] if "index_within_clusters" in tab.columns else None
+                if iw is not None and sorted(np.asarray(iw).astype(int).tolist()) != list(range(len(iw))):
+                    seen.setdefault("file:index_within_clusters", "%s: unit %d: index_within_clusters is not 0..%d (max %d, %d distinct values)"
+                                    % (ctx, u, len(iw) - 1, int(np.max(iw)), len(set(np.asarray(iw).tolist()))))
+    except HarnessError:
+        raise
+    except Exception as e:
+        seen.setdefault("file:exc:%s" % type(e).__name__, "%s: %s: %s" % (ctx, type(e).__name__, e))
+    shutil.rmtree(d, ignore_errors=True)
+    return Res(list(seen.items()), o=max_wf, tr=1)
+
+
 def _loader_check(out, seen, ctx):
     try:
         wl = wx.WaveformsLoader(out, trough_offset=TROUGH)
@@ -556,6 +607,7 @@ CHECK = {
         Clause("array", "extract_wfs_array / make_channel_index on every peak channel, radius and position", cases=array_cases, check=array_check),
         Clause("table", "spike selection: min(max_wf, #valid) distinct valid spikes per unit", cases=table_cases, check=table_check),
         Clause("file", "extract_wfs_cbin: rows = source, files agree, chunk-size and task-order independence, loader", cases=file_cases, check=file_check),
+        Clause("many-waveforms", "a unit with more waveforms than every size constant mined from the extractor's source", cases=many_cases, check=many_check),
         Clause("cbin-input", "compressed input (decompressed next to the file or to a scratch directory): same output files", cases=cbin_cases, check=cbin_check),
         Clause("joblib", "free-running joblib conformance point", cases=joblib_cases, check=joblib_check, serial=True),
     ],
